@@ -1,5 +1,6 @@
 import Ecal.Drivers.Util
 import Ecal.Model.Cascade
+import Ecal.Model.CascadeShared
 import Std.Data.HashSet
 /-!
 Driver of C02 (payload format: see `go/cmd/harness/c02.go`).
@@ -334,14 +335,17 @@ def exploreCase (payload : String) : String :=
 
 def nats (s : String) : List Nat := (s.splitOn ".").map fun x => x.toNat?.getD 9999
 
-def chk (b : Bool) (msg : String) : Except String Unit := if b then .ok () else .error msg
+/-- replay monad: errors + the log of model events performed -/
+abbrev RM := StateT (List Event) (Except String)
 
-def stepE (s : State) (e : Event) : Except String State :=
+def chk (b : Bool) (msg : String) : RM Unit := if b then pure () else throw msg
+
+def stepE (s : State) (e : Event) : RM State :=
   match step s e with
-  | some s' => .ok s'
-  | none => .error s!"event not enabled in the model: {repr e}"
+  | some s' => do modify (e :: ·); pure s'
+  | none => throw s!"event not enabled in the model: {repr e}"
 
-def replayTok (c : Casc) (s : State) (tok : String) : Except String State := do
+def replayTok (c : Casc) (s : State) (tok : String) : RM State := do
   let kind := tok.toList.headD ' '
   let a := nats (tok.drop 1).toString
   let phaseOf (m : Nat) : Option Phase := (s.mons[m]?).map (·.phase)
@@ -369,7 +373,7 @@ def replayTok (c : Casc) (s : State) (tok : String) : Except String State := do
   | 'A', [m, n] =>
     match addEv c m n with
     | .addEvent m true rs => stepE s (.addEvent m true rs)
-    | _ => .error "a task was queued for an event the plan calls non-triggering"
+    | _ => throw "a task was queued for an event the plan calls non-triggering"
   | 'C', [p, m, u] => do
     chk (m == s.mons.length) "child id out of creation order"
     let s' ← stepE s (.newChild p)
@@ -388,7 +392,7 @@ def replayTok (c : Casc) (s : State) (tok : String) : Except String State := do
       chk (mon.todo.isEmpty) "ProcessEvent returned with rules left"
       chk (mon.failed.length == nerr) s!"number of errors: model {mon.failed.length}, code {nerr}"
       if nerr > 0 then stepE s (.taskDone m) else pure s
-    | none => .error "unknown monitor"
+    | none => throw "unknown monitor"
   | 'T', [m] => stepE s (.setErrors m)
   | 'H', [m] => stepE s (.notified m)
   | 'F', [m, u, n] => do
@@ -398,7 +402,7 @@ def replayTok (c : Casc) (s : State) (tok : String) : Except String State := do
         stepE s (.addEvent m false [])
       | some (.running _) => stepE s (.taskDone m)
       | some (.errSet _) => stepE s (.errFinish m)
-      | _ => .error "descendantFinished for a monitor which cannot finish"
+      | _ => throw "descendantFinished for a monitor which cannot finish"
     chk (s'.unfinished == u) s!"unfinished after Finish: model {s'.unfinished}, code {u}"
     chk ((s'.mons[m]?).map (·.phase.finished) == some true) "monitor not finished after Finish"
     pure s'
@@ -409,7 +413,7 @@ def replayTok (c : Casc) (s : State) (tok : String) : Except String State := do
     let s' ← stepE s .allErrors
     chk (1 ≤ n && n ≤ (s.mons.filter fun m => !m.failed.isEmpty).length) "AllErrors entries seen by the error observer: more than failed tasks, or none"
     pure s'
-  | _, _ => .error "unknown token"
+  | _, _ => throw "unknown token"
 
 /-- replay the tokens of one cascade; returns (number of tokens, legacy?, keys of the states visited when `collect`) -/
 def replayCasc (p : Plan) (c : Casc) (toks : List String) (collect : Bool := false) :
@@ -433,18 +437,18 @@ def replayCasc (p : Plan) (c : Casc) (toks : List String) (collect : Bool := fal
           | none => some 9999
         | _ => some 9999
       else none
-    match replayTok c x.s t with
-    | .ok s' =>
+    match (replayTok c x.s t).run [] with
+    | .ok (s', _) =>
       x := { s := s', nodeOf := match nd with | some n => x.nodeOf ++ [n] | none => x.nodeOf }
       if collect then keys := key c x :: keys
     | .error e => throw s!"{k} {t} {e}"
     k := k + 1
   -- end of the recorded run: the cascade is over
   let s := x.s
-  chk (s.posted == 1) "finished message not posted exactly once at the end of the trace"
-  chk (s.mons.all fun m => m.phase.finished) "unfinished monitor at the end of the trace"
-  chk (!c.wait || s.waitReturned) "wait did not return in the trace"
-  chk (!s.panicked) "model assertion failed"
+  if s.posted != 1 then throw "finished message not posted exactly once at the end of the trace"
+  if !(s.mons.all fun m => m.phase.finished) then throw "unfinished monitor at the end of the trace"
+  if c.wait && !s.waitReturned then throw "wait did not return in the trace"
+  if s.panicked then throw "model assertion failed"
   pure (k, legacy, keys)
 
 /-- a recorded trace is a global sequence `<cascade>:<token>,…` -/
@@ -454,6 +458,39 @@ def parseTrace (t : String) : List (Nat × String) :=
     match x.splitOn ":" with
     | [ci, tok] => (ci.toNat?.getD 9999, tok)
     | _ => (9999, x)
+
+/-- replay the GLOBAL trace of a case on the shared system `Conc` (one observer table, one queue
+    map, shared workers): every token's model events must also be steps of `Conc.step` — in
+    particular a `pop` needs its worker free in EVERY cascade — and the view of the stepping
+    cascade must equal the state the single-cascade replay computes (`conc_refines` at run time). -/
+def replayJoint (p : Plan) (toks : List (Nat × String)) : Except String Nat := do
+  let mut C : Conc := { workers := p.workers, failFirst := p.failFirst,
+                        roots := p.cascs.map fun _ => (init p.workers p.failFirst).local }
+  let legacy := toks.any (·.2.startsWith "A") && !(toks.any (·.2.startsWith "K"))
+  let mut k := 0
+  for (ci, t) in toks do
+    match p.cascs[ci]? with
+    | none => throw s!"{k} {t} unknown cascade"
+    | some c =>
+      if legacy && t.startsWith "A0." then
+        match C.step ci .regHandler with
+        | some C' => C := C'
+        | none => throw s!"{k} {t} regHandler not enabled in the shared system"
+      match C.view ci with
+      | none => throw s!"{k} {t} no such root"
+      | some v =>
+        match (replayTok c v t).run [] with
+        | .error e => throw s!"{k} {ci}:{t} {e}"
+        | .ok (v', evs) =>
+          for e in evs.reverse do
+            match C.step ci e with
+            | some C' => C := C'
+            | none => throw s!"{k} {ci}:{t} enabled for the cascade alone but not in the shared system (worker busy in another cascade?): {repr e}"
+          if C.view ci != some v' then throw s!"{k} {ci}:{t} view of the shared system differs from the cascade's state"
+    k := k + 1
+  if !(C.table.isEmpty) then throw "observer table not empty at the end of the run"
+  if !(C.pending.isEmpty) then throw "callbacks pending at the end of the run"
+  pure k
 
 def replayCase (payload : String) : String :=
   match payload.splitOn " ~ " with
@@ -468,7 +505,10 @@ def replayCase (payload : String) : String :=
         | .error e => (i, 0, false, e)
       match rs.find? (fun (_, _, _, e) => e != "") with
       | some (i, _, _, e) => s!"reject {i} {e}"
-      | none => s!"ok {rs.foldl (fun acc (_, n, _, _) => acc + n) 0} legacy={rs.foldl (fun acc (_, _, lg, _) => acc + b2n lg) 0}"
+      | none =>
+        match replayJoint p toks with
+        | .error e => s!"reject joint {e}"
+        | .ok _ => s!"ok {rs.foldl (fun acc (_, n, _, _) => acc + n) 0} legacy={rs.foldl (fun acc (_, _, lg, _) => acc + b2n lg) 0}"
   | _ => "bad-payload"
 
 /-- `driver C02 cover`: payload = `<plan with one cascade> ~ <trace> | <trace> | …` — how much of the
